@@ -146,6 +146,12 @@ struct Plan {
     /// the dumping thread is interrupted by signals (handler without SA_RESTART) while it attaches
     /// to threads that keep running (group stop disabled) under CPU contention
     storm: bool,
+    /// one sentinel thread carries a name that is not valid UTF-8: the writer may refuse the dump
+    /// (Err), but a thread list it does publish must still be accurate
+    odd_name: bool,
+    /// the kernel's thread-id counter wraps in the middle of thread creation: later threads have
+    /// smaller ids than earlier ones
+    wrap: bool,
 }
 
 pub fn run(rep: &mut Report, thorough: bool) {
@@ -167,11 +173,19 @@ pub fn run(rep: &mut Report, thorough: bool) {
                 delay_at: if r % 2 == 0 { Some(delay_cursor) } else { None },
                 null_sp: n >= 3 && rng.chance(1, 2),
                 storm: false,
+                odd_name: false,
+                wrap: false,
             });
         }
     }
     for k in 0..(if thorough { 60 } else { 6 }) {
-        plans.push(Plan { n: [5usize, 20, 33][k % 3], exiters: 0, exit_mode: 0, delay_at: None, null_sp: false, storm: true });
+        plans.push(Plan { n: [5usize, 20, 33][k % 3], exiters: 0, exit_mode: 0, delay_at: None, null_sp: false, storm: true, odd_name: false, wrap: false });
+    }
+    for k in 0..(if thorough { 20 } else { 3 }) {
+        plans.push(Plan { n: [3usize, 5, 21][k % 3], exiters: 0, exit_mode: 0, delay_at: None, null_sp: false, storm: false, odd_name: true, wrap: false });
+    }
+    for k in 0..(if thorough { 4 } else { 1 }) {
+        plans.push(Plan { n: 6 + k, exiters: 0, exit_mode: 0, delay_at: None, null_sp: false, storm: false, odd_name: false, wrap: true });
     }
     for plan in plans {
         let mut b = Builder::new();
@@ -188,7 +202,8 @@ pub fn run(rep: &mut Report, thorough: bool) {
                 Mode::Pause
             };
             let shape = StackShape { pages: 2, sp_offset: (PAGE + (rng.below(500) * 8)) as i64, ..Default::default() };
-            let i = b.sentinel(&mut rng, mode, &shape, None, None);
+            let name = if plan.odd_name && k == n_sent / 2 { Some(vec![0xff, 0xfe, b'o', b'd', b'd']) } else { None };
+            let i = b.sentinel(&mut rng, mode, &shape, name, None);
             if mode == Mode::Spinner3 {
                 spinner3 = Some(i);
             }
@@ -196,6 +211,13 @@ pub fn run(rep: &mut Report, thorough: bool) {
         let mut exiter_idx = Vec::new();
         for _ in 0..plan.exiters {
             exiter_idx.push(b.thread(ThreadKind::Exiter, Some(b"exiter".to_vec())));
+        }
+        // storm plans: two threads that cannot stop at once (blocked as the parent of a vfork-style
+        // child), so that the dumping thread really sleeps in its wait while signals hit it
+        let mut slow_idx: Vec<usize> = Vec::new();
+        if plan.storm {
+            slow_idx.push(b.thread(ThreadKind::VforkWaiter { ms: 12 }, Some(b"vforker".to_vec())));
+            slow_idx.push(b.thread(ThreadKind::VforkWaiter { ms: 23 }, Some(b"vforker".to_vec())));
         }
         let mut null_idx = None;
         if plan.null_sp {
@@ -212,6 +234,9 @@ pub fn run(rep: &mut Report, thorough: bool) {
             b.sentinel(&mut rng, mode, &shape, Some(b"oddsp".to_vec()), None);
             rep.count("odd_sp_threads", 1);
         }
+        if plan.wrap {
+            b.spec.wrap_ids_before_thread = Some(b.spec.threads.len() / 2);
+        }
         let t = match Target::spawn(b.spec.clone(), &b.opts) {
             Ok(t) => Arc::new(t),
             Err(e) => {
@@ -226,6 +251,14 @@ pub fn run(rep: &mut Report, thorough: bool) {
         }
         if plan.exit_mode == 2 || plan.storm {
             o.failspots.push("StopProcess".into());
+        }
+        if plan.wrap {
+            let tids = &t.manifest.tids;
+            if t.ctl.get(CTL_WRAPPED) == 1 && tids.windows(2).any(|w| w[1] < w[0]) {
+                rep.count("targets_whose_thread_ids_are_not_ascending_in_creation_order", 1);
+            } else {
+                rep.note("thread-id wrap-around could not be produced on this machine (pid_max too large or ids too low)");
+            }
         }
         // ---- hook: place the exits / delays
         let events: Arc<Mutex<Vec<String>>> = Arc::new(Mutex::new(Vec::new()));
@@ -337,6 +370,9 @@ pub fn run(rep: &mut Report, thorough: bool) {
                         expected.push(t.manifest.tids[s.index]);
                     }
                 }
+                for i in &slow_idx {
+                    expected.push(t.manifest.tids[*i]);
+                }
                 for tid in &expected {
                     let k = threads.iter().filter(|th| th.tid as i32 == *tid).count();
                     if k != 1 {
@@ -424,6 +460,10 @@ pub fn run(rep: &mut Report, thorough: bool) {
                 if rep.samples.len() < 4 {
                     rep.sample(case.clone());
                 }
+            }
+            Outcome::Err(_) if plan.odd_name => {
+                rep.case(desc, true);
+                rep.count("dumps_refused_because_of_a_non_utf8_thread_name(no verdict)", 1);
             }
             Outcome::Err(e) => {
                 // every plan here only makes best-effort thread events happen (threads leaving
